@@ -67,7 +67,7 @@ fn parse_any() {
 fn decrypt_any_data() {
     let (mut b, len) = any_bytes(40);
     model::reset(0);
-    unsafe { model::CONSISTENT = false; }
+    unsafe { model::CONSISTENT.v = false; }
     let nwk = DefaultCrypto::new(&any_key());
     let app = DefaultCrypto::new(&any_key());
     let use_nwk: bool = kani::any();
@@ -101,7 +101,7 @@ fn decrypt_any_data() {
 fn decrypt_any_join_accept() {
     let (mut b, len) = any_bytes(40);
     model::reset(0);
-    unsafe { model::CONSISTENT = false; }
+    unsafe { model::CONSISTENT.v = false; }
     let key = DefaultCrypto::new(&any_key());
     let checked: bool = kani::any();
     let r = if checked {
